@@ -161,8 +161,10 @@ def s4(ctx, rep):
     cfgb = cfg_of(ob)
     pr = ctx.nodes(ob, ctx.sel_call(selfcall="_promote_trials_at_rung_complete"), "may", 0)
     from ..engine import vars_assigned_from
-    cv = vars_assigned_from(ob, lambda v: isinstance(v, ast.BoolOp) and isinstance(v.op, ast.And) and "self._first_free_pos >= len(" in U(v)
-                            and "self.num_pending_slots() == 0" in U(v))
+    from ..kinds import parity as _par
+    cv = vars_assigned_from(ob, lambda v: isinstance(v, ast.BoolOp) and isinstance(v.op, ast.And)
+                            and any("self._first_free_pos >= len(" in t_ for t_ in _par.both_texts(v))
+                            and any("self.num_pending_slots() == 0" in t_ for t_ in _par.both_texts(v)))
     ok = bool(pr) and len(cv) == 1 and all(ctx.has_fact(ob, n, lambda a: a[0] == "truth" and a[1] == cv[0] and a[2] is True) for n in pr)
     rep.put(ok, "S4", "guarded_by", "SynchronousBracket.on_result: promotion (and release of checkpoints) only when the rung is complete", ob, None, "")
 
@@ -268,8 +270,9 @@ def _last(seg):
     return seg.split(".")[-1] if isinstance(seg, str) else seg
 
 
-def _norm_atom(a):
-    return tuple(_last(x) if isinstance(x, str) else x for x in a)
+def _norm_atom(a, roles=None):
+    roles = roles or {}
+    return tuple((roles.get(x) or _last(x)) if isinstance(x, str) else x for x in a)
 
 
 def _expanded_dom_atoms(ctx, f, cfg, nid):
@@ -313,7 +316,9 @@ def s7(ctx, rep):
     prom = [n.id for n in cg.nodes for x in cg.node_walk(n.id) if isinstance(x, ast.Call) and fn_name(x) == "_encoded_config_by_promotion"]
     if len(res) != 1 or len(prom) != 1:
         raise AnchorError("DEHB._suggest: resume (_promote_trial_and_make_suggestion) / promotion source not found")
-    consumer = {_norm_atom(a) for a in _expanded_dom_atoms(ctx, g, cg, res[0]) | _expanded_dom_atoms(ctx, g, cg, prom[0])}
+    from ..engine import var_from_call, vars_assigned_from
+    roles = {var_from_call(g, "next_job", 0): "bracket_id"}     # the local that holds the slot's bracket in _suggest
+    consumer = {_norm_atom(a, roles) for a in _expanded_dom_atoms(ctx, g, cg, res[0]) | _expanded_dom_atoms(ctx, g, cg, prom[0])}
     extra = sorted(map(str, guard - consumer))
     rep.put(bool(guard) and not extra, "S6", "agreement",
             "DEHB.on_trial_result: PAUSE is decided under no more conditions than _suggest tests before it resumes a trial", f, cfg.nodes[pa[0]].ast,
@@ -324,8 +329,9 @@ def s7(ctx, rep):
     h = P.method("SynchronousHyperbandScheduler", "on_trial_result")
     ch = cfg_of(h)
     pa2 = [n.id for n in ch.nodes if n.kind == "stmt" and isinstance(n.ast, ast.Assign) and U(n.ast.value) == "SchedulerDecision.PAUSE"]
-    ms = [n for n in ch.nodes if n.kind == "test" and any(a[0] == "le" and _last(a[1]) == "milestone" for a in
-          __import__("stverif.core.facts", fromlist=["atoms_of"]).atoms_of(n.ast, True))]
+    from ..core.facts import atoms_of
+    lev = vars_assigned_from(h, lambda v: isinstance(v, ast.Attribute) and v.attr == "level")      # milestone = slot.level
+    ms = [n for n in ch.nodes if n.kind == "test" and any(a[0] == "le" and a[1] in lev for a in atoms_of(n.ast, True))]
     ok = len(pa2) == 1 and len(ms) >= 1
     if ok:
         # from the true edge of `resource >= milestone` every path to the exit passes the PAUSE assignment and no STOP/CONTINUE follows it
